@@ -218,6 +218,13 @@ def points(tier: str) -> List[Dict[str, Any]]:
         for gs in itertools.product(gaps3, repeat=2):
             for js in (((0.0, 1.0, 0.0), (1.0, 0.0, 0.5)) if tier == "quick" else jit[::4]):
                 pts.append({"fam": "multi", "kinds": list(ks), "gaps": list(gs), "age": 5000, "jitter": list(js)})
+    # five queries: the same answer asked again while its first batch is still being held, so that groups emptied by the
+    # send (an answer is never duplicated within a batch) sit at the head of the queue when another question arrives
+    for g1, g2, g4 in itertools.product((0, 1), (390, 450, 499), (400, 450, 499, 520)):
+        for js in itertools.product((0.0, 1.0), repeat=5):
+            for last in ("ptrB", "ptr+txt"):
+                pts.append({"fam": "multi", "kinds": ["ptr", "ptr", "ptr", "ptr", last], "gaps": [g1, g2, 0, g4], "age": 5000,
+                            "jitter": list(js)})
     # F3: truncated trains
     tgaps = [1, 100, 399, 400, 401, 450, 499, 500, 501] if tier != "quick" else [1, 399, 400, 401, 500, 501]
     for n in (1, 2, 3, 4) if tier != "quick" else (1, 2, 3):
